@@ -17,9 +17,9 @@ Definition ip_campus : ipraw := [128; 138; 7; 9].
 (* an accepted configuration: the campus is allowlisted, one host of it is carved out by a pattern --
    the allowlist overrides the subnet blocklist, so a pattern is the only way to write that *)
 Definition lists_campus : lists :=
-  mkLists [NOk ([128; 138; 0; 1], [255; 255; 255; 255])] [NOk net_campus] [] [POk pat_exception; POk pat_example].
+  mkLists [NOk ([128; 138; 0; 1], [255; 255; 255; 255])] [NOk net_campus] [] [POk pat_exception; POk pat_example] false.
 Definition pol_campus : epolicy := mkEP [([128; 138; 0; 1], [255; 255; 255; 255])] [net_campus] [] [pat_exception; pat_example].
-Example campus_accepted : load (ELists lists_campus) = Some pol_campus.
+Example campus_accepted : load [] (ELists lists_campus) = Some pol_campus.
 Proof. reflexivity. Qed.
 
 (* net.ParseIP as a predicate on the strings of these examples, and the resolver *)
@@ -97,11 +97,32 @@ Proof. repeat split; vm_compute; reflexivity. Qed.
 
 (* reload: a file with an unparsable entry keeps the campus policy in force, a good one replaces it *)
 Example reload_examples :
-  reload_pol pol_campus (ELists (mkLists [NBad] [] [] [])) = pol_campus /\
-  reload_pol pol_campus (ELists (mkLists [] [] [] [POk pat_metadata; PBad])) = pol_campus /\
-  reload_pol pol_campus EFail = pol_campus /\
-  reload_pol pol_campus (ELists (mkLists [] [] [] [POk pat_metadata; POk pat_linklocal])) = pol_patterns.
+  reload_pol [] pol_campus (ELists (mkLists [NBad] [] [] [] false)) = pol_campus /\
+  reload_pol [] pol_campus (ELists (mkLists [] [] [] [POk pat_metadata; PBad] false)) = pol_campus /\
+  reload_pol [] pol_campus EFail = pol_campus /\
+  reload_pol [] pol_campus (ELists (mkLists [] [] [] [POk pat_metadata; POk pat_linklocal] false)) = pol_patterns.
 Proof. repeat split; reflexivity. Qed.
+
+(* covert_blocklist_public_addrs: the loopback interface (127.0.0.1/8 and ::1/128) forbids every spelling
+   of a loopback address; an allowlist switches the whole blocklist -- the implicit entries too -- off *)
+Definition lo_ifaces : list ipnet :=
+  [([127; 0; 0; 1], [255; 0; 0; 0]); ([0;0;0;0;0;0;0;0;0;0;0;0;0;0;0;1], [255;255;255;255;255;255;255;255;255;255;255;255;255;255;255;255])].
+Definition lo_resolve (h : bytes) : resolved :=
+  if bytes_eqb h (bs "127.9.9.9") then RAddr [127; 9; 9; 9] false
+  else if bytes_eqb h (bs "::ffff:127.0.0.1") then RAddr (mapped [127; 0; 0; 1]) false
+  else if bytes_eqb h (bs "::1") then RAddr [0;0;0;0;0;0;0;0;0;0;0;0;0;0;0;1] false
+  else RFail.
+Example public_addrs_examples :
+  match load lo_ifaces (ELists (mkLists [] [] [] [] true)), load lo_ifaces (ELists (mkLists [] [] [] [] false)) with
+  | Some pub, Some nopub =>
+      decide (fun _ => false) lo_resolve pub (bs "127.9.9.9:80") = false /\
+      decide (fun _ => false) lo_resolve pub (bs "[::ffff:127.0.0.1]:80") = false /\
+      decide (fun _ => false) lo_resolve pub (bs "[::1]:80") = false /\
+      decide (fun _ => false) lo_resolve nopub (bs "127.9.9.9:80") = true /\
+      decide (fun _ => false) lo_resolve nopub (bs "[::1]:80") = true
+  | _, _ => False
+  end.
+Proof. vm_compute. repeat split; reflexivity. Qed.
 
 (* the matcher against its specification on a concrete word *)
 Example found_example : Found pat_example (bs "www.example").
